@@ -9,7 +9,7 @@ pub(crate) struct SymbolTable {
 
 pub(crate) struct Symbol {
     pub scope: Scope,
-    pub index: u16,
+    pub index: usize,
 }
 
 #[derive(PartialEq, Copy, Clone)]
@@ -54,7 +54,7 @@ impl Context {
         self.max_size += 1;
 
         Symbol {
-            index: (self.total_len() - 1).try_into().unwrap(),
+            index: self.total_len() - 1,
             scope: self.scope,
         }
     }
@@ -67,7 +67,7 @@ impl Context {
             abs_index -= scope.len();
             if let Some(index) = scope.iter().rposition(|n| n == name) {
                 return Some(Symbol {
-                    index: (abs_index + index).try_into().unwrap(),
+                    index: abs_index + index,
                     scope: self.scope,
                 });
             }
